@@ -20,7 +20,9 @@
      [T]": schema maxLength/minLength/pattern = the newtype's, enum values ⊇
      variant raw names / CEnum list (and every variant satisfies the string
      constraints - in scalar values), `not enum` ⊆ CDeny list, required
-     non-nullable members are PRequired non-Option members, closed ⇒
+     non-nullable members are PRequired members whose type does not reach an
+     Option through Box / transparent newtypes (such a member may be absent:
+     IR/Serde.v [missing]), closed ⇒
      deny_unknown_fields and no flattened map, fixed length ⇒ tuple / array of
      that length, scalar JSON type ⇒ a type accepting only that JSON type, tag
      constants of a tagged oneOf = the raw names of the enum's variants.
@@ -284,6 +286,27 @@ Definition opt_imp_ustr (a b : option ustring) : bool :=
 Definition is_option_det (o : option details) : bool :=
   match o with Some (DOption _) => true | _ => false end.
 
+(* May a member of this type be ABSENT although it has no serde default?  serde
+   hands an absent member a deserializer that only answers `deserialize_option`;
+   Box, transparent newtypes and value-constrained newtypes forward to their
+   inner type, so the answer is yes when the type reaches an Option through such
+   layers (IR/Serde.v [missing], SerdeProofs.missing_required_chase).  This is an
+   over-approximation (the value test of the constrained layers is ignored; an
+   exhausted budget answers yes). *)
+Fixpoint reaches_option (T : space) (fuel : nat) (i : id) : bool :=
+  match fuel with
+  | O => true
+  | S f =>
+      match get_det T i with
+      | Some (DOption _) => true
+      | Some (DBox t) => reaches_option T f t
+      | Some (DNewtype _ _ t c) =>
+          match c with CString _ _ _ => false | _ => reaches_option T f t end
+      | _ => false
+      end
+  end.
+Definition RFUEL : nat := 16.
+
 Section Exact.
   Variable re_match : ustring -> ustring -> bool.
   Variable D : defs.
@@ -347,10 +370,11 @@ Section Exact.
       Definition struct_x (ps : list prop) (deny : bool) : bool :=
         ty_rep [JObj []]
         && nodup_ustr (wire_names ps)
-        (* required non-nullable members are PRequired members of a non-Option type *)
+        (* required non-nullable members are PRequired members of a type that does not
+           reach an Option through Box / transparent / value-constrained newtypes *)
         && forallb (fun k => match find_wire k ps with
                              | Some p => match p_state p with PRequired => true | _ => false end
-                                         && negb (is_option_det (get_det T (p_ty p)))
+                                         && negb (reaches_option T RFUEL (p_ty p))
                              | None => false
                              end) (req_enf D props req)
         (* closed: deny_unknown_fields, nothing flattened, every member declared *)
